@@ -497,6 +497,7 @@ META = {
              'functions. Pixel values and float rounding are not decided. Also decided: the scalar form of every component '
              'accepts numpy scalars (SCALARFORM), an array bandpass is one value per column also under frequency sub-sampling,'
              " an empty bounding range yields the empty/zero result, and the sub-sample time grids start at the frame's own "
-             'first time stamp.',
+             'first time stamp. Also decided: the copies averaged for Doppler smearing are centred (path(t_{i+1}) - path(t_i))'
+             ' / smearing_subsamples apart, on whatever evenly spaced family of centres the code builds.',
     'note': 'Real arithmetic; numpy meshgrid/reshape/mean/diff are opaque functions compared by arguments; user callables are opaque.',
 }
